@@ -131,7 +131,7 @@ def _validate(rep, wd, name, runs, succ, consts, max_rounds):
             json.dumps(nxt if nxt else {"hammer_suspects": [x["event"] for x in info["hammer_suspects"][:2]]})[:260])
         bad = dict(bad, diagnosis=info)
         rep.violation(klass, desc, bad, name="%s_run%s.json" % (name, bad.get("run")))
-        todo = todo[pos:]
+        todo = [r for r in todo[pos:] if r.get("run") != bad.get("run")]   # the other hammer parts of that run
         if rounds >= max_rounds:
             vlib.log("trace validation: stopping after %d unexplained runs (%d runs not examined)" % (rounds, len(todo)))
             break
